@@ -54,7 +54,10 @@ impl AuthenticatorDataFlags {
 }
 
 pub type Result<T> = core::result::Result<T, Error>;
-//@extract src/sizes.rs :: ^pub const AUTHENTICATOR_DATA_LENGTH
+pub mod sizes { use vstd::prelude::*; verus! {
+//@extract-file src/sizes.rs
+} }
+pub use crate::sizes::*;
 //@extract src/ctap2.rs :: ^pub enum Error\b
 
 // ---- contract of the trait: what an attested-credential-data serialiser must do -------------
@@ -126,6 +129,12 @@ pub mod get_assertion {
 @*/
 //@extract src/ctap2/get_assertion.rs :: ^impl super::SerializeAttestedCredentialData for NoAttestedCredentialData :: inject=NoAttestedCredentialData
     }
+}
+
+/// the capacity named by the property: 676 bytes
+pub proof fn ob_C07_capacity_is_676()
+    ensures AUTHENTICATOR_DATA_LENGTH == 676,
+{
 }
 
 /// the fixed part is 37 bytes; the four named flag bits are checked on the real bitflags type by Kani (c07_k_flag_bits)
